@@ -130,6 +130,9 @@ StartRekey == /\ active /\ ~inKex /\ expected = {} /\ inKex' = TRUE
 Next == AuthSucceeds \/ StartRekey \/ \E t \in Types, ch \in ChanIds : Recv(t, ch)
 Spec == Init /\ [][Next]_vars
 SpecQuietInKex == Init /\ [][AuthSucceeds \/ StartRekey \/ \E t \in Types, ch \in ChanIds : RecvQuietInKex(t, ch)]_vars
+\* mutation: the authentication gate is skipped while this end's own KEXINIT is outstanding
+KindNoGateInKex(t, ch) == IF inKex /\ t \in TransportTable THEN "handled" ELSE Kind(t, ch)
+SpecNoGateInKex == Init /\ [][AuthSucceeds \/ StartRekey \/ \E t \in Types, ch \in ChanIds : RecvK(t, ch, KindNoGateInKex(t, ch))]_vars
 SpecNoGate == Init /\ [][AuthSucceeds \/ StartRekey \/ \E t \in Types, ch \in ChanIds : RecvNoGate(t, ch)]_vars
 \* every initial state x one inbound message (used with Types <- AllTypes)
 OneStepSpec == Init /\ [][last.kind = "none" /\ Next]_vars
